@@ -2,7 +2,7 @@
    returns is one the writer wrote, with its id, uid, name, type, every path kind (set or unset) and no children *)
 From PM Require Import Base.PyVal Base.Obj Base.Ini Model.Common Model.TreeInfo Proofs.ManifestsProofs Proofs.PyValProofs
      Proofs.ImagesProofs Proofs.IniProofs Proofs.ArchProofs Gen.Tables Proofs.CommonProofs Proofs.TreeInfoWriter Proofs.TreeInfoReadBack Proofs.TreeInfoChecksums
-     Proofs.TreeInfoStage2 Proofs.TreeInfoSections Proofs.TreeInfoImages.
+     Proofs.TreeInfoStage2 Proofs.TreeInfoSections Proofs.TreeInfoImages Proofs.DiscInfoRoundtrip.
 
 Definition core4 : list str := [F"id"; F"uid"; F"name"; F"type"].
 
@@ -146,7 +146,9 @@ Qed.
 Lemma ser_ti_variants_stage x mv t : ser_ti x mv = Ok t ->
   exists p8 p9,
     (forall s, is_variant_section s -> assoc s p8 = None) /\ (forall s, is_variant_section s -> assoc s t = assoc s p9) /\
-    fold_left vstep (ti_variants x) (Ok p8) = Ok p9.
+    fold_left vstep (ti_variants x) (Ok p8) = Ok p9 /\
+    ini_get t (F"tree") (F"variants") =
+      Ok (join_strs [c_comma] (sort_list (map (fun kv => getf (tv_fields (snd kv)) (F"uid")) (ti_variants x)))).
 Proof.
   intros Hw. unfold ser_ti in Hw.
   inv_bind Hw as u0 G0. inv_bind Hw as u1 G1. inv_bind Hw as p0 Gp0. inv_bind Hw as p1 Gp1. cbv zeta in Hw.
@@ -160,7 +162,34 @@ Proof.
   assert (Pr : P (F"release")) by (intros [E|E]; vm_compute in E; discriminate E).
   assert (Pb : P (F"base_product")) by (intros [E|E]; vm_compute in E; discriminate E).
   assert (Pt : P (F"tree")) by (intros [E|E]; vm_compute in E; discriminate E).
-  split; [|split].
+  assert (OL : only_in later_q p9 t).
+  { apply (only_in_trans later_q p9 p10).
+    { destruct (ti_checksums x) as [|c0 cs0]; [injection G10 as <-; apply only_in_refl|].
+      inv_bind G10 as q Gq. assert (Pc : later_q (F"checksums")) by (left; reflexivity).
+      apply (only_in_trans later_q p9 q p10 (add_section_only later_q _ _ _ Gq Pc)).
+      revert G10. apply fold_only. intros q0 c q' Hq. exact (ini_set_only later_q _ _ _ _ _ Hq Pc). }
+    apply (only_in_trans later_q p10 p11).
+    { destruct (ti_images x) as [|im ims]; [injection G11 as <-; apply only_in_refl|].
+      inv_bind G11 as u1' Gi. revert G11. apply fold_only. intros q0 pi q' Hq. cbv zeta in Hq. inv_bind Hq as q1 Gq1.
+      assert (Li : later_q (lit "images-" ++ fst pi)) by (right; left; apply startswith_app).
+      exact (only_in_trans _ q0 q1 q' (add_section_only _ _ _ _ Gq1 Li) (sets_only _ _ _ _ _ Hq Li)). }
+    apply (only_in_trans later_q p11 p12).
+    { assert (Ps : later_q (F"stage2")) by (right; right; left; reflexivity).
+      destruct (negb (truthy (getf (ti_stage2 x) (F"mainimage"))) && negb (truthy (getf (ti_stage2 x) (F"instimage"))));
+        [injection G12 as <-; apply only_in_refl|].
+      inv_bind G12 as u8 Gv. inv_bind G12 as q Gq. inv_bind G12 as q1 Gq1.
+      apply (only_in_trans later_q p11 q p12 (add_section_only later_q _ _ _ Gq Ps)). apply (only_in_trans later_q q q1 p12).
+      - destruct (truthy (getf (ti_stage2 x) (F"mainimage"))); [exact (ini_set_only later_q _ _ _ _ _ Gq1 Ps)|injection Gq1 as <-; apply only_in_refl].
+      - destruct (truthy (getf (ti_stage2 x) (F"instimage"))); [exact (ini_set_only later_q _ _ _ _ _ G12 Ps)|injection G12 as <-; apply only_in_refl]. }
+    apply (only_in_trans later_q p12 p13).
+    { assert (Pm : later_q (F"media")) by (right; right; right; left; reflexivity).
+      destruct (negb (truthy (getf (ti_media x) (F"discnum"))) && negb (truthy (getf (ti_media x) (F"totaldiscs"))));
+        [injection G13 as <-; apply only_in_refl|].
+      inv_bind G13 as u7 Gv3. inv_bind G13 as q Gq. inv_bind G13 as dn Gd. inv_bind G13 as dn_s Gds. inv_bind G13 as td Gt. inv_bind G13 as td_s Gtds.
+      exact (only_in_trans later_q p12 q p13 (add_section_only _ _ _ _ Gq Pm) (sets_only _ _ _ _ _ G13 Pm)). }
+    apply (only_in_weaken (fun s => s = F"general")); [|exact (ser_general_only _ _ _ _ Hw)].
+    intros s ->. right; right; right; right. reflexivity. }
+  split; [|split; [|split]].
   - assert (O8 : only_in P [] p8).
     { apply (only_in_trans P [] p0); [exact (add_section_only P _ _ _ Gp0 Ph)|].
       apply (only_in_trans P p0 p1); [exact (sets_only P _ _ _ _ Gp1 Ph)|].
@@ -176,35 +205,13 @@ Proof.
       apply (only_in_trans P p6 p7); [exact (sets_only P _ _ _ _ Gp7 Pt)|].
       exact (ini_set_only P _ _ _ _ _ Gp8 Pt). }
     intros s Hs. rewrite (O8 s); [reflexivity|]. intros Hn. exact (Hn Hs).
-  - assert (OL : only_in later_q p9 t).
-    { apply (only_in_trans later_q p9 p10).
-      { destruct (ti_checksums x) as [|c0 cs0]; [injection G10 as <-; apply only_in_refl|].
-        inv_bind G10 as q Gq. assert (Pc : later_q (F"checksums")) by (left; reflexivity).
-        apply (only_in_trans later_q p9 q p10 (add_section_only later_q _ _ _ Gq Pc)).
-        revert G10. apply fold_only. intros q0 c q' Hq. exact (ini_set_only later_q _ _ _ _ _ Hq Pc). }
-      apply (only_in_trans later_q p10 p11).
-      { destruct (ti_images x) as [|im ims]; [injection G11 as <-; apply only_in_refl|].
-        inv_bind G11 as u1' Gi. revert G11. apply fold_only. intros q0 pi q' Hq. cbv zeta in Hq. inv_bind Hq as q1 Gq1.
-        assert (Li : later_q (lit "images-" ++ fst pi)) by (right; left; apply startswith_app).
-        exact (only_in_trans _ q0 q1 q' (add_section_only _ _ _ _ Gq1 Li) (sets_only _ _ _ _ _ Hq Li)). }
-      apply (only_in_trans later_q p11 p12).
-      { assert (Ps : later_q (F"stage2")) by (right; right; left; reflexivity).
-        destruct (negb (truthy (getf (ti_stage2 x) (F"mainimage"))) && negb (truthy (getf (ti_stage2 x) (F"instimage"))));
-          [injection G12 as <-; apply only_in_refl|].
-        inv_bind G12 as u8 Gv. inv_bind G12 as q Gq. inv_bind G12 as q1 Gq1.
-        apply (only_in_trans later_q p11 q p12 (add_section_only later_q _ _ _ Gq Ps)). apply (only_in_trans later_q q q1 p12).
-        - destruct (truthy (getf (ti_stage2 x) (F"mainimage"))); [exact (ini_set_only later_q _ _ _ _ _ Gq1 Ps)|injection Gq1 as <-; apply only_in_refl].
-        - destruct (truthy (getf (ti_stage2 x) (F"instimage"))); [exact (ini_set_only later_q _ _ _ _ _ G12 Ps)|injection G12 as <-; apply only_in_refl]. }
-      apply (only_in_trans later_q p12 p13).
-      { assert (Pm : later_q (F"media")) by (right; right; right; left; reflexivity).
-        destruct (negb (truthy (getf (ti_media x) (F"discnum"))) && negb (truthy (getf (ti_media x) (F"totaldiscs"))));
-          [injection G13 as <-; apply only_in_refl|].
-        inv_bind G13 as u7 Gv3. inv_bind G13 as q Gq. inv_bind G13 as dn Gd. inv_bind G13 as dn_s Gds. inv_bind G13 as td Gt. inv_bind G13 as td_s Gtds.
-        exact (only_in_trans later_q p12 q p13 (add_section_only _ _ _ _ Gq Pm) (sets_only _ _ _ _ _ G13 Pm)). }
-      apply (only_in_weaken (fun s => s = F"general")); [|exact (ser_general_only _ _ _ _ Hw)].
-      intros s ->. right; right; right; right. reflexivity. }
-    intros s Hs. apply OL. exact (variant_not_later s Hs).
+  - intros s Hs. apply OL. exact (variant_not_later s Hs).
   - exact G9.
+  - unfold ini_get. rewrite (OL (F"tree")).
+    2:{ intros [E|[E|[E|[E|E]]]]; try discriminate E. }
+    assert (O9 : only_in is_variant_section p8 p9).
+    { revert G9. apply fold_only. intros q kv q' Hq. exact (ser_tvar_only _ _ _ _ Hq). }
+    rewrite (O9 (F"tree") Pt). exact (ini_set_get_same _ _ _ _ _ Gp8).
 Qed.
 
 (* ---- the reader *)
@@ -255,7 +262,8 @@ Proof.
 Qed.
 
 Lemma reader_variants_stage x mv t x' : ser_ti x mv = Ok t -> deser_ti t = Ok x' ->
-  exists vids, fold_left (rstep t) vids (Ok []) = Ok (ti_variants x').
+  exists vids, (if has_option t (F"tree") (F"variants") then do s <- ini_get t (F"tree") (F"variants"); Ok (split c_comma s) else Ok []) = Ok vids /\
+               fold_left (rstep t) vids (Ok []) = Ok (ti_variants x').
 Proof.
   intros Hw Hr.
   destruct (written_release_and_tree x mv t Hw) as (name_s & ver_s & short_s & arch_s & ts_s & En & Ev & Es & Ea & Ets & Gn & Gv & Gs & Ga & Gp & Gt).
@@ -280,33 +288,33 @@ Proof.
   inv_bind Hr as ts' Gts'.
   inv_bind Hr as u2 G2. inv_bind Hr as vids G3. inv_bind Hr as variants G4. inv_bind Hr as u3 G5. inv_bind Hr as cks G6.
   inv_bind Hr as u4 G7. inv_bind Hr as u5 G8. inv_bind Hr as u6 G9. inv_bind Hr as md G10. inv_bind Hr as u7 G11. inv_bind Hr as u8 G12.
-  injection Hr as <-. cbn [ti_variants]. exists vids. exact G4.
+  injection Hr as <-. cbn [ti_variants]. exists vids. split; [exact G3|exact G4].
 Qed.
 
-Theorem flat_variants_read_back x mv t x' :
-  ser_ti x mv = Ok t -> deser_ti t = Ok x' -> (forall kv, In kv (ti_variants x) -> flat kv) ->
-  forall key v', In (key, v') (ti_variants x') ->
-  exists kv, In kv (ti_variants x) /\
-    tv_fields v' = [(F"id", getf (tv_fields (snd kv)) (F"id")); (F"uid", getf (tv_fields (snd kv)) (F"uid"));
-                    (F"name", getf (tv_fields (snd kv)) (F"name")); (F"type", getf (tv_fields (snd kv)) (F"type"))] /\
-    tv_children v' = [] /\
-    (forall fld, In fld TI_PATH_FIELDS -> getf (tv_paths v') fld = getf (tv_paths (snd kv)) fld).
+Definition facts_of (kv : str * tvar) (v' : tvar) : Prop :=
+  tv_fields v' = [(F"id", getf (tv_fields (snd kv)) (F"id")); (F"uid", getf (tv_fields (snd kv)) (F"uid"));
+                  (F"name", getf (tv_fields (snd kv)) (F"name")); (F"type", getf (tv_fields (snd kv)) (F"type"))] /\
+  tv_children v' = [] /\
+  (forall fld, In fld TI_PATH_FIELDS -> getf (tv_paths v') fld = getf (tv_paths (snd kv)) fld).
+
+(* one top-level read: the section it reads is the section of a written variant, and it returns that variant's facts *)
+Lemma read_one x t p8 p9 n vid v' :
+  (forall s, is_variant_section s -> assoc s p8 = None) -> (forall s, is_variant_section s -> assoc s t = assoc s p9) ->
+  fold_left vstep (ti_variants x) (Ok p8) = Ok p9 -> (forall kv, In kv (ti_variants x) -> flat kv) ->
+  deser_tvar (S n) false t None vid false = Ok v' ->
+  exists kv, In kv (ti_variants x) /\ lit "variant-" ++ vid = vsec kv /\ facts_of kv v'.
 Proof.
-  intros Hw Hr Hflat key v' Hin.
-  destruct (ser_ti_variants_stage x mv t Hw) as (p8 & p9 & A8 & At & G).
+  intros A8 At G Hflat Hd.
   destruct (vfold_spec (ti_variants x) p8 p9 G Hflat) as (I1 & I2 & I3).
-  destruct (reader_variants_stage x mv t x' Hw Hr) as (vids & Gr).
-  destruct (rfold_inv t vids [] _ Gr key v' Hin) as [[]|(vid & Hvid & Hd)].
   destruct (deser_top_inv t _ vid v' Hd) as (id & uid' & name & ty & Gi & Gu & Gn & Gt & Hf & Hrest).
   set (sec0 := lit "variant-" ++ vid) in *.
   assert (Hv0 : is_variant_section sec0) by (left; apply startswith_app).
-  (* the section read is the section of a written variant *)
   assert (Hkv : exists kv, In kv (ti_variants x) /\ sec0 = vsec kv).
   { destruct (in_dec str_eq_dec sec0 (map vsec (ti_variants x))) as [Hi|Hi].
     - apply in_map_iff in Hi. destruct Hi as (kv & E & Hk). exists kv. split; [exact Hk|symmetry; exact E].
     - exfalso. unfold ini_get in Gi. rewrite (At sec0 Hv0), (I2 sec0), (A8 sec0 Hv0) in Gi; [discriminate|].
       intros (kv & Hk & E). apply Hi. rewrite E. apply in_map. exact Hk. }
-  destruct Hkv as (kv & Hk & Esec). exists kv. split; [exact Hk|].
+  destruct Hkv as (kv & Hk & Esec). exists kv. split; [exact Hk|]. split; [exact Esec|].
   pose proof (I1 kv Hk) as S9.
   assert (St : sec_spec t (tv_fields (snd kv)) (tv_paths (snd kv))).
   { apply (sec_spec_transport p9 t); [apply At; apply tv_section_is|exact S9]. }
@@ -321,16 +329,119 @@ Proof.
     change (getf [(F"id", PStr id); (F"uid", PStr uid'); (F"name", PStr name); (F"type", PStr ty)] (F"uid")) with (PStr uid').
     rewrite E4, E2. reflexivity. }
   rewrite Esec' in Hrest. destruct (Hrest (no_get_no_option _ _ _ S3)) as (Hc & Hp).
-  split; [rewrite Hf, E1, E2, E3, E4; reflexivity|]. split; [exact Hc|].
+  unfold facts_of. split; [rewrite Hf, E1, E2, E3, E4; reflexivity|]. split; [exact Hc|].
   intros fld Hfld. rewrite Hp, (getf_map_fields (fun field => opt_get t sec0 field) TI_PATH_FIELDS fld Hfld), opt_get_ini.
   destruct (S2 fld Hfld) as [[En Eg]|(s & Es & Eg)]; rewrite Eg; [rewrite En|rewrite Es]; reflexivity.
 Qed.
 
-(* the hypotheses are satisfiable, and the conclusion is not empty: the example tree's variant is read back *)
+Theorem flat_variants_read_back x mv t x' :
+  ser_ti x mv = Ok t -> deser_ti t = Ok x' -> (forall kv, In kv (ti_variants x) -> flat kv) ->
+  forall key v', In (key, v') (ti_variants x') ->
+  exists kv, In kv (ti_variants x) /\
+    tv_fields v' = [(F"id", getf (tv_fields (snd kv)) (F"id")); (F"uid", getf (tv_fields (snd kv)) (F"uid"));
+                    (F"name", getf (tv_fields (snd kv)) (F"name")); (F"type", getf (tv_fields (snd kv)) (F"type"))] /\
+    tv_children v' = [] /\
+    (forall fld, In fld TI_PATH_FIELDS -> getf (tv_paths v') fld = getf (tv_paths (snd kv)) fld).
+Proof.
+  intros Hw Hr Hflat key v' Hin.
+  destruct (ser_ti_variants_stage x mv t Hw) as (p8 & p9 & A8 & At & G & _).
+  destruct (reader_variants_stage x mv t x' Hw Hr) as (vids & _ & Gr).
+  destruct (rfold_inv t vids [] _ Gr key v' Hin) as [[]|(vid & Hvid & Hd)].
+  destruct (read_one x t p8 p9 _ vid v' A8 At G Hflat Hd) as (kv & Hk & _ & Fk). exists kv. split; [exact Hk|exact Fk].
+Qed.
+
+(* ---- ... and every written variant is returned *)
+Lemma insert_pv_dup_in a l x : In x (insert_pv_dup a l) <-> x = a \/ In x l.
+Proof.
+  induction l as [|y l IH]; cbn [insert_pv_dup].
+  - cbn [In]. split; [intros [E|[]]; left; symmetry; exact E|intros [E|[]]; left; symmetry; exact E].
+  - destruct (str_leb _ _); cbn [In].
+    + split; [intros [E|H]; [left; symmetry; exact E|right; exact H]|intros [E|H]; [left; symmetry; exact E|right; exact H]].
+    + rewrite IH. tauto.
+Qed.
+
+Lemma sort_list_in l x : In x (sort_list l) <-> In x l.
+Proof.
+  induction l as [|y l IH]; cbn [sort_list fold_right]; [reflexivity|]. fold (sort_list l). rewrite insert_pv_dup_in, IH. cbn [In].
+  split; [intros [E|H]; [left; symmetry; exact E|right; exact H]|intros [E|H]; [left; symmetry; exact E|right; exact H]].
+Qed.
+
+Lemma rfold_complete t vids : forall acc res, fold_left (rstep t) vids (Ok acc) = Ok res ->
+  (forall e, In e acc -> In e res) /\
+  (forall vid, In vid vids -> exists v, deser_tvar (S (length t)) false t None vid false = Ok v /\ In (fmt_s (getf (tv_fields v) (F"uid")), v) res).
+Proof.
+  induction vids as [|vid vids IH]; intros acc res H.
+  - cbn in H. injection H as <-. split; [auto|intros vid []].
+  - cbn [fold_left] in H. destruct (rstep t (Ok acc) vid) as [acc1|e] eqn:E; [|rewrite rfold_err in H; discriminate].
+    destruct (IH acc1 res H) as [M C].
+    unfold rstep in E. cbn [bind] in E. inv_bind E as v0 Gd. inv_bind E as u Gv. cbv zeta in E.
+    destruct (assoc _ acc); [discriminate|]. injection E as <-.
+    split.
+    + intros e He. apply M. apply in_or_app. left. exact He.
+    + intros vid' [<-|Hv]; [|exact (C vid' Hv)]. exists v0. split; [exact Gd|]. apply M. apply in_or_app. right. left. reflexivity.
+Qed.
+
+Lemma vfold_nodup vs : forall q q', fold_left vstep vs (Ok q) = Ok q' -> (forall kv, In kv vs -> flat kv) -> NoDup (map vsec vs).
+Proof.
+  induction vs as [|kv vs IH]; intros q q' H Hflat; [constructor|].
+  cbn [fold_left] in H. unfold vstep at 2 in H. cbn [bind] in H.
+  destruct kv as [k [f paths ch]]. pose proof (Hflat _ (or_introl eq_refl)) as Hc. unfold flat in Hc. cbn [snd tv_children] in Hc. subst ch.
+  cbn [snd] in H. destruct (ser_tvar None (TV f paths []) q) as [q2|e] eqn:E; [|rewrite vfold_err in H; discriminate].
+  destruct (ser_tvar_flat f paths q q2 E) as (A & O & S).
+  destruct (vfold_spec vs q2 q' H (fun kv' Hk => Hflat kv' (or_intror Hk))) as (_ & _ & I3).
+  cbn [map]. constructor; [|exact (IH q2 q' H (fun kv' Hk => Hflat kv' (or_intror Hk)))].
+  intros Hin. apply in_map_iff in Hin. destruct Hin as (kv' & Ek & Hk).
+  apply (I3 _ (sec_spec_present _ _ _ S)). exists kv'. split; [exact Hk|]. unfold vsec at 1 in Ek. cbn [snd tv_fields] in Ek. symmetry. exact Ek.
+Qed.
+
+Lemma nodup_map_inj {A B} (f : A -> B) l a b : NoDup (map f l) -> In a l -> In b l -> f a = f b -> a = b.
+Proof.
+  induction l as [|y l IH]; intros Hn Ha Hb E; [destruct Ha|]. cbn [map] in Hn. inversion Hn as [|? ? Hx Hr]; subst.
+  destruct Ha as [->|Ha], Hb as [->|Hb]; [reflexivity| | |exact (IH Hr Ha Hb E)].
+  - exfalso. apply Hx. rewrite E. apply in_map. exact Hb.
+  - exfalso. apply Hx. rewrite <- E. apply in_map. exact Ha.
+Qed.
+
+Theorem flat_variants_complete x mv t x' :
+  ser_ti x mv = Ok t -> deser_ti t = Ok x' -> (forall kv, In kv (ti_variants x) -> flat kv) ->
+  (forall kv, In kv (ti_variants x) -> py_eq (getf (tv_fields (snd kv)) (F"type")) (PStr (F"addon")) = false) ->
+  (forall kv u, In kv (ti_variants x) -> getf (tv_fields (snd kv)) (F"uid") = PStr u -> ~ In c_comma u) ->
+  forall kv, In kv (ti_variants x) -> exists key v', In (key, v') (ti_variants x') /\ facts_of kv v'.
+Proof.
+  intros Hw Hr Hflat Hty Hcomma kv Hk.
+  destruct (ser_ti_variants_stage x mv t Hw) as (p8 & p9 & A8 & At & G & Gtv).
+  destruct (vfold_spec (ti_variants x) p8 p9 G Hflat) as (I1 & _ & _).
+  destruct (reader_variants_stage x mv t x' Hw Hr) as (vids & G3 & Gr).
+  rewrite (proj1 (get_has_option _ _ _ _ Gtv)), Gtv in G3. cbn [bind] in G3. injection G3 as <-.
+  assert (Huid : forall kv', In kv' (ti_variants x) -> exists u, getf (tv_fields (snd kv')) (F"uid") = PStr u).
+  { intros kv' Hk'. destruct (I1 kv' Hk') as (S1 & _). destruct (S1 (F"uid")) as (u & Eu & _); [cbn; auto|]. exists u. exact Eu. }
+  destruct (Huid kv Hk) as (u & Eu).
+  set (uids := sort_list (map (fun kv0 : str * tvar => getf (tv_fields (snd kv0)) (F"uid")) (ti_variants x))) in *.
+  set (strs := map (fun v => match v with PStr s => s | _ => [] end) uids).
+  assert (Hin_u : In u strs).
+  { unfold strs. apply in_map_iff. exists (PStr u). split; [reflexivity|]. apply (proj2 (sort_list_in _ _)). apply in_map_iff. exists kv. split; [exact Eu|exact Hk]. }
+  assert (Hvid : In u (split c_comma (join_strs [c_comma] uids))).
+  { unfold join_strs. fold strs. rewrite split_join; [exact Hin_u|intros E; rewrite E in Hin_u; destruct Hin_u|].
+    intros s Hs. unfold strs in Hs. apply in_map_iff in Hs. destruct Hs as (v & <- & Hv). apply (proj1 (sort_list_in _ _)) in Hv.
+    apply in_map_iff in Hv. destruct Hv as (kv' & <- & Hk'). destruct (Huid kv' Hk') as (u' & Eu'). rewrite Eu'. exact (Hcomma kv' u' Hk' Eu'). }
+  destruct (rfold_complete t _ [] _ Gr) as [_ C]. destruct (C u Hvid) as (v' & Hd & Hres).
+  destruct (read_one x t p8 p9 _ u v' A8 At G Hflat Hd) as (kv2 & Hk2 & Esec & Fk).
+  assert (Ekv : vsec kv = lit "variant-" ++ u).
+  { unfold vsec, tv_section. rewrite (Hty kv Hk), Eu. reflexivity. }
+  assert (kv2 = kv).
+  { apply (nodup_map_inj vsec (ti_variants x)); [exact (vfold_nodup _ _ _ G Hflat)|exact Hk2|exact Hk|]. rewrite <- Esec, Ekv. reflexivity. }
+  subst kv2. eexists. exists v'. split; [exact Hres|exact Fk].
+Qed.
+
+(* the hypotheses are satisfiable, and the conclusions are not empty: the example tree's variant is read back *)
 Example flat_variants_nonvacuous :
   exists t x' v', ser_ti ex_ti None = Ok t /\ deser_ti t = Ok x' /\ (forall kv, In kv (ti_variants ex_ti) -> flat kv) /\
+    (forall kv, In kv (ti_variants ex_ti) -> py_eq (getf (tv_fields (snd kv)) (F"type")) (PStr (F"addon")) = false) /\
+    (forall kv u, In kv (ti_variants ex_ti) -> getf (tv_fields (snd kv)) (F"uid") = PStr u -> ~ In c_comma u) /\
     In (F"Server", v') (ti_variants x') /\ getf (tv_paths v') (F"packages") = PStr (F"Packages").
 Proof.
   eexists. eexists. eexists. split; [vm_compute; reflexivity|]. split; [vm_compute; reflexivity|].
-  split; [intros kv [<-|[]]; reflexivity|]. split; [left; reflexivity|vm_compute; reflexivity].
+  split; [intros kv [<-|[]]; reflexivity|]. split; [intros kv [<-|[]]; reflexivity|].
+  split; [intros kv u [<-|[]] E; vm_compute in E; injection E as <-; vm_compute; intuition discriminate|].
+  split; [left; reflexivity|vm_compute; reflexivity].
 Qed.
